@@ -33,6 +33,24 @@ func amountVariants() []gen.Amount {
 			out = append(out, gen.Amount{Kind: "skiptake", Skip: s, Take: t})
 		}
 	}
+	// numbers spelled with leading zeros are decimal all the same
+	out = append(out, gen.Amount{Kind: "top", Take: 2, Zeros: 1}, gen.Amount{Kind: "take", Take: 1, Zeros: 2}, gen.Amount{Kind: "skip", Skip: 1, Zeros: 1},
+		gen.Amount{Kind: "last", Last: 2, Zeros: 1}, gen.Amount{Kind: "skiptake", Skip: 1, Take: 2, Zeros: 1})
+	return out
+}
+
+// longVariants: amounts of 7..13 against texts with 14..20 matches, every number also with one and two leading zeros.
+func longVariants() []gen.Amount {
+	var out []gen.Amount
+	for z := 0; z <= 2; z++ {
+		for n := 7; n <= 13; n++ {
+			out = append(out, gen.Amount{Kind: "top", Take: n, Zeros: z}, gen.Amount{Kind: "take", Take: n, Zeros: z},
+				gen.Amount{Kind: "skip", Skip: n, Zeros: z}, gen.Amount{Kind: "last", Last: n, Zeros: z})
+		}
+		for _, st := range [][2]int{{8, 3}, {10, 2}, {11, 2}, {9, 9}, {7, 10}, {12, 1}} {
+			out = append(out, gen.Amount{Kind: "skiptake", Skip: st[0], Take: st[1], Zeros: z})
+		}
+	}
 	return out
 }
 
@@ -75,7 +93,8 @@ func C04(r *drv.Run) {
 		nbody, ntext = 8000, 8
 	}
 	variants := amountVariants()
-	r.Rule = fmt.Sprintf("bodies B from the core generator (alphabet {a,b}: occurrences overlap, lazy and bounded loops) plus fixed overlapping bodies; per (B, text) the `all` result A and %d amount clauses (top/take n, skip s, last n for n,s in 0..5, skip s take t for s,t in 0..4 - straddling len(A)) as find and as replace commands. Oracle: each clause's result must deep-equal (every field, incl. MatchNumber, variables, replacement) the stated slice of A; A itself is checked against the reference matcher. Non-trivial = len(A) >= 2 and the clause cuts A properly (0 < window < len(A)); distinct by (B, text, clause).", len(variants))
+	longV := longVariants()
+	r.Rule = fmt.Sprintf("bodies B from the core generator (alphabet {a,b}: occurrences overlap, lazy and bounded loops) plus fixed overlapping bodies; per (B, text) the `all` result A and %d amount clauses (top/take n, skip s, last n for n,s in 0..5, skip s take t for s,t in 0..4 - straddling len(A); a few spelled with leading zeros) as find and as replace commands; plus 3 fixed bodies on texts with 14..20 matches under %d clauses with amounts 7..13, each number also spelled with one and two leading zeros (still decimal). Oracle: each clause's result must deep-equal (every field, incl. MatchNumber, variables, replacement) the stated slice of A; A itself is checked against the reference matcher. Non-trivial = len(A) >= 2 and the clause cuts A properly (0 < window < len(A)); distinct by (B, text, clause).", len(variants), len(longV))
 	r.Assumptions = []string{"`last n` only for n >= 1 (the property's range)", "A itself judged by the C01 reference so the relation cannot hold vacuously on a wrong A"}
 	fixed := [][]gen.Node{
 		{gen.Lit{S: "aa"}},
@@ -84,10 +103,21 @@ func C04(r *drv.Run) {
 		{gen.Lit{S: "a"}, gen.Loop{Min: 0, Max: 1, Form: "maybe", Body: gen.Lit{S: "a"}}},
 		{gen.Capture{Name: "x", Body: gen.Class{Kind: "letter"}}, gen.Loop{Min: 0, Max: 1, Form: "maybe", Body: gen.BackRef{Name: "x"}}},
 	}
-	r.Exec(nbody, drv.ExecOpts{Batch: 4}, func(i int) *drv.Item {
+	longBodies := [][]gen.Node{
+		{gen.Lit{S: "ab"}},
+		{gen.Class{Kind: "letter"}},
+		{gen.Capture{Name: "x", Body: gen.Class{Kind: "any"}}, gen.Loop{Min: 0, Max: 1, Form: "maybe", Body: gen.BackRef{Name: "x"}}},
+	}
+	longTexts := [][]byte{[]byte("abababababababababababababab"), []byte("ab ab ab ab ab ab ab ab ab ab ab ab ab ab ab ab"), []byte("aabbaabbaabbaabbaabbaabbaabb\nabab")}
+	r.Exec(nbody+2*len(longBodies), drv.ExecOpts{Batch: 4}, func(i int) *drv.Item {
 		rng := gen.Derive(r.Seed, "C04", i)
 		var p *gen.Program
-		if i < len(fixed) {
+		variants := variants
+		long := i >= nbody
+		if long {
+			p = &gen.Program{Commands: []gen.Command{{Amount: gen.Amount{Kind: "all"}, Body: longBodies[(i-nbody)/2]}}}
+			variants = longV
+		} else if i < len(fixed) {
 			p = &gen.Program{Commands: []gen.Command{{Amount: gen.Amount{Kind: "all"}, Body: fixed[i]}}}
 		} else {
 			sc := gen.DefaultScope
@@ -96,6 +126,9 @@ func C04(r *drv.Run) {
 			p = gen.NewPG(rng, sc).FindProgram()
 		}
 		replace := i%3 == 1
+		if long {
+			replace = (i-nbody)%2 == 1
+		}
 		if replace {
 			p.Commands[0].Replace = true
 			p.Commands[0].With = []gen.WithItem{{Kind: "str", S: "<"}, {Kind: "var", S: "value"}, {Kind: "var", S: "matchNumber"}, {Kind: "str", S: ">"}}
@@ -103,6 +136,9 @@ func C04(r *drv.Run) {
 		sm := gen.NewSampler(rng, p, []byte("ab\n A"))
 		texts := sm.Inputs(p.Commands[0].Body, ntext-2, maxLenFor(p, 12))
 		texts = append(texts, []byte("aaaaaa"), []byte("abababab"))
+		if long {
+			texts = longTexts
+		}
 		srcs := [][]byte{[]byte(gen.RenderProgram(p))}
 		for _, am := range variants {
 			q := *p
@@ -121,6 +157,11 @@ func C04(r *drv.Run) {
 				return
 			}
 			for k := range res.Compiles {
+				if !res.Compiles[k].OK && k > 0 && res.Compiles[0].OK && variants[k-1].Zeros > 0 && res.Compiles[k].Panic == nil {
+					r.Violate(&drv.Violation{Sig: "leading-zero-amount-rejected", Src: string(srcs[k]), Err: res.Compiles[k].Err, Case: &c,
+						Detail: map[string]any{"all": baseSrc, "error": oneLineN(res.Compiles[k].Err, 160)}})
+					return
+				}
 				if !res.Compiles[k].OK {
 					r.Inconclusive("generated program rejected by Compile: " + res.Compiles[k].Err + " | " + string(srcs[k]))
 					return
@@ -170,6 +211,12 @@ func C04(r *drv.Run) {
 					if len(A.Matches) >= 2 && len(want) > 0 && len(want) < len(A.Matches) {
 						r.Nontrivial(vsrc + "\x00" + string(text))
 						r.Count("proper_windows_"+am.Kind, 1)
+						if am.Zeros > 0 {
+							r.Count("proper_windows_leading_zero", 1)
+						}
+						if am.Skip+am.Take+am.Last >= 10 {
+							r.Count("proper_windows_two_digit", 1)
+						}
 					}
 				}
 			}
@@ -178,7 +225,7 @@ func C04(r *drv.Run) {
 	})
 	if r.NViolations() == 0 {
 		expensiveFloor(r)
-		for _, k := range []string{"top", "take", "skip", "skiptake", "last"} {
+		for _, k := range []string{"top", "take", "skip", "skiptake", "last", "leading_zero", "two_digit"} {
 			if r.Counter("proper_windows_"+k) == 0 {
 				r.Inconclusive("no proper window observed for clause " + k)
 			}
